@@ -513,7 +513,7 @@ func init() {
 				}},
 				// uses next to postfix operators, loops inside component files and quoted quotes: every use shows its own arguments,
 				// the page's variables and loop object are what they were
-				{Name: "uses-among-operators-loops-and-quotes", Exhaustive: true, N: 8, Run: func(c *core.Ctx, i int) {
+				{Name: "uses-among-operators-loops-and-quotes", Exhaustive: true, N: 9, Run: func(c *core.Ctx, i int) {
 					var files map[string]string
 					var data map[string]any
 					var want string
@@ -542,6 +542,11 @@ func init() {
 					case 6: // numbers written with leading zeros, as arguments and inside the component file
 						files = map[string]string{"components/clock.tw": "<{{ h }}:{{ m }}:{{ s }}:{{ f }}:{{ z }}|@if(h == 10)ten@end|{{ h + m + 010 }}>", "page.tw": "@component(\"~clock\", {h: 010, m: 07, s: 09, f: 00.50, z: 000})@component(\"~clock\", {h: 0010, m: 0, s: -08, f: 1.0, z: 1})"}
 						want = "<10:7:9:0.5:0|ten|27><10:0:-8:1.0:1|ten|20>"
+					case 7: // many arguments, some of them object literals of many pairs themselves (nested to three levels)
+						files = map[string]string{"components/wide.tw": "<{{ a }}|{{ b.p }}{{ b.q }}{{ b.r }}{{ b.s }}{{ b.t }}|{{ c }}|{{ d }}|{{ e.m.h }}{{ e.m.i }}{{ e.m.j }}{{ e.m.k }}{{ e.m.l }}{{ e.n }}|{{ f.z }}{{ f.u }}|{{ g }}>",
+							"page.tw": "@component(\"~wide\", {a: 1, b: {p: 1, q: 2, r: 3, s: 4, t: 5}, c: 3, d: 4, e: {m: {h: 1, i: 2, j: 3, k: 4, l: 5, zz: 6}, n: 7, o: 8, p: 9, q: 10}, f: {u: 1, v: 2, w: 3, x: 4, y: 5, z: 6}, g: \"last\"})" +
+								"@each(k in [1, 2])@component(\"~wide\", {g: k, f: {z: k, y: 0, x: 0, w: 0, v: 0, u: k}, e: {q: 0, p: 0, o: 0, n: k, m: {zz: 0, l: 5, k: 4, j: 3, i: 2, h: k}}, d: 4, c: 3, b: {t: 5, s: 4, r: 3, q: 2, p: k}, a: k})@end"}
+						want = "<1|12345|3|4|123457|61|last><1|12345|3|4|123451|11|1><2|22345|3|4|223452|22|2>"
 					default: // a float decremented in every pass of a loop of the page and handed to the use
 						files = map[string]string{"components/show.tw": "<{{ p }}>", "page.tw": "{{ price = 2.5 }}@each(k in [1, 2, 3])@component(\"~show\", {p: price--}){{ price }};@end"}
 						want = "<1.5>2.5;<1.5>2.5;<1.5>2.5;"
